@@ -694,6 +694,29 @@ def o_family_ms(tier):
     return [m for m in out if o_wellformed(m)]
 
 
+def o_family_ms_cross():
+    """cca2e92 (one transaction per moved method, overlapping transactions discarded as a whole): static methods whose
+    bodies access other static methods -- through the class, `self` (an unbound name there), a fresh instance; forwards,
+    backwards, mutually, in a chain, recursively, across classes.  Never sampled away."""
+    S = ("self",)
+    out = []
+    for r in (("cls", 1), S, ("new", 1)):
+        for b1, b2, b3 in [([CALL(r, 2)], [("ev", 2)], None), ([("ev", 1)], [CALL(r, 1)], None), ([CALL(r, 2)], [CALL(r, 1)], None),
+                           ([CALL(r, 2)], [CALL(r, 3)], [("ev", 3)]), ([("ev", 1)], [CALL(r, 3)], [CALL(r, 1)]),
+                           ([CALL(r, 1), CALL(r, 2)], [("ev", 2)], None), ([CALL(r, 3)], [("ev", 2)], [("ev", 3)]),
+                           ([("read", r, 2)], [("ev", 2)], None)]:
+            meths = [(1, "static", 0, b1), (2, "static", 0, b2)] + ([(3, "static", 0, b3)] if b3 else [])
+            for main in ([CALL(("cls", 1), 2)], [CALL(("cls", 1), 1), CALL(("new", 1), 2)]):
+                out.append({"items": [("class", (1, None, meths, []))], "vars": [], "stores": [], "main": main + [("ev", 9)]})
+    for r in (("cls", 3), ("new", 3)):
+        for first in (1, 3):
+            c1 = ("class", (1, None, [(1, "static", 0, [CALL(r, 2)]), (4, "plain", 1, [CALL(S, 1)])], []))
+            c3 = ("class", (3, None, [(2, "static", 0, [CALL(("cls", 1), 1)] if first == 3 else [("ev", 3)])], []))
+            out.append({"items": [c1, c3] if first == 1 else [c3, c1], "vars": [], "stores": [],
+                        "main": [CALL(("cls", 3), 2), CALL(("new", 1), 4), ("ev", 9)]})
+    return [m for m in out if o_wellformed(m)]
+
+
 def o_family_du(tier):
     S = ("self",)
     out = []
@@ -774,6 +797,7 @@ def o_rand_module(rnd):
 
 
 O_FAMILIES = {"ORs": o_family_rs, "OMs": o_family_ms, "ODu": o_family_du}
+O_ALWAYS = {"OMs": o_family_ms_cross}
 
 
 # =================================================================================================
@@ -1064,6 +1088,34 @@ REGRESSIONS = [
     ("object_oriented.fix_unconventional_class_definitions", {}, "a = 5\nclass C:\n    a = 1\nC.b = a\nC.x = C()\nC.__y = 2\nprint(C.b, type(C.x).__name__, '__y' in vars(C))\n"),
     ("fixes.remove_duplicate_functions", {"preserve": P0}, "def f(x):\n    return len(x)\ndef g(x):\n    return sum(x)\ndef h(x):\n    return 1.5\ndef k(x):\n    return 2.5\ndef a(x, *, y):\n    return x\ndef b(x, y):\n    return x\nprint(f([5]), g([5]), h(0), k(0), a(1, y=2), b(1, 2))\n"),
     ("fixes.delete_unused_functions_and_classes", {"preserve": frozenset({"A"})}, "class A:\n    def __init__(self):\n        self.v = 1\n    def __repr__(self):\n        return 'R'\n    def unused(self):\n        return 1\n"),
+    # 8e0b238: deferred read through a function defined outside the compound statement
+    ("fixes.undefine_unused_variables", {"preserve": P0}, "def c():\n    return True\nr0 = lambda: v0\nif c():\n    v0 = 5\n    print(r0())\n    v0 = 6\n"),
+    ("fixes.undefine_unused_variables", {"preserve": P0}, "def r0():\n    return v0\nfor i in (1, 2):\n    if i:\n        v0 = i\n        print(r0())\n        v0 = 0\n"),
+    # ---- round 5: inputs of the repairs made by the owners of these sites (outside the Gallina fragments: decorators,
+    # instance attributes, async, private names, metaclasses, unpacking, with / match, generator expressions)
+    # remove_unused_self_cls: 77f7c48, 174b72e, 65a0319
+    ("object_oriented.remove_unused_self_cls", {}, "class A:\n    def deco(f):\n        return lambda self: 42\n    @deco\n    def m(self):\n        return 1\nprint(A().m())\n"),
+    ("object_oriented.remove_unused_self_cls", {}, "def logged(f):\n    def w(self, *a):\n        print(self.name)\n        return f(self, *a)\n    return w\nclass A:\n    name = 'n'\n    @logged\n    def m(self, x):\n        return x + 1\nprint(A().m(1))\n"),
+    ("object_oriented.remove_unused_self_cls", {}, "class A:\n    def __init__(self):\n        self.sm = lambda: 'inst'\n    @staticmethod\n    def sm():\n        return 'static'\n    def m(self):\n        return self.sm()\nprint(A().m())\n"),
+    # move_staticmethod_static_scope: cca2e92, 699e60b, ae55fdb, ef36830, 4157ff4
+    ("object_oriented.move_staticmethod_static_scope", {"preserve": P0}, "import functools\nclass A:\n    @staticmethod\n    @functools.lru_cache(maxsize=None)\n    def m(x):\n        return x + 1\nprint(A.m(1))\n"),
+    ("object_oriented.move_staticmethod_static_scope", {"preserve": P0}, "class A:\n    K = 3\n    @staticmethod\n    def m(x=K):\n        return x\nprint(A.m())\n"),
+    ("object_oriented.move_staticmethod_static_scope", {"preserve": P0}, "class A:\n    __secret = 7\n    @staticmethod\n    def m():\n        return A.__secret\nprint(A.m())\n"),
+    ("object_oriented.move_staticmethod_static_scope", {"preserve": P0}, "import asyncio\nclass A:\n    @staticmethod\n    async def m(x):\n        return x + 1\nasync def main():\n    print(await A.m(1))\nasyncio.run(main())\n"),
+    ("object_oriented.move_staticmethod_static_scope", {"preserve": P0}, "class A:\n    @staticmethod\n    def m():\n        return 1\ndef patch():\n    A.m = lambda: 5\npatch()\nprint(A.m())\n"),
+    # fix_unconventional_class_definitions: df8723a, 37eacb3
+    ("object_oriented.fix_unconventional_class_definitions", {}, "class Foo:\n    a = 1\nFoo.__eq__ = lambda self, other: True\nprint(len({Foo()}))\n"),
+    ("object_oriented.fix_unconventional_class_definitions", {}, "import enum\nclass Color(enum.Enum):\n    RED = 1\nColor.default = 5\nprint(list(Color), Color.default)\n"),
+    ("object_oriented.fix_unconventional_class_definitions", {}, "class D:\n    def __set_name__(self, owner, name):\n        print('named', name)\nclass Foo:\n    a = 1\nFoo.d = D()\nprint(Foo.a)\n"),
+    ("object_oriented.fix_unconventional_class_definitions", {}, "def mk():\n    return Foo.a + 1\nclass Foo:\n    a = 1\nFoo.b = mk()\nprint(Foo.b)\n"),
+    # undefine_unused_variables / code_dependencies_outputs: 3d8e8d0, 2a3e428, 2104408, 1fc0899, e5b299f, 11a29b0
+    ("fixes.undefine_unused_variables", {"preserve": P0}, "def g():\n    print('g runs')\n    yield 1\n    yield 2\ndef h():\n    a, b = g()\n    return 0\nprint(h())\n"),
+    ("fixes.undefine_unused_variables", {"preserve": P0}, "def f():\n    return [1, 2, 3]\ndef h():\n    a, b = f()\n    return 0\ntry:\n    print(h())\nexcept ValueError:\n    print('ValueError')\n"),
+    ("fixes.undefine_unused_variables", {"preserve": P0}, "c = 0\nclass A:\n    if c:\n        sep = 'a'\n    else:\n        sep = 'b'\nprint(A.sep)\n"),
+    ("fixes.undefine_unused_variables", {"preserve": P0}, "import contextlib\nx = 0\nwith contextlib.suppress(ValueError):\n    print(int('q'))\n    x = 1\nprint(x)\n"),
+    ("fixes.undefine_unused_variables", {"preserve": P0}, "def outer():\n    count = 0\n    def inc():\n        nonlocal count\n        count = 1\n    inc()\n    return 'ok'\nprint(outer())\n"),
+    ("fixes.undefine_unused_variables", {"preserve": P0}, "x = 1\ng = (i + x for i in range(3))\nx = 2\nprint(list(g))\n"),
+    ("fixes.undefine_unused_variables", {"preserve": P0}, "v = 3\nx = 0\nmatch v:\n    case 7:\n        x = 1\nprint(x)\n"),
 ]
 
 
@@ -1201,6 +1253,7 @@ def check(run, mods, wd, rnd) -> dict:
         famo = O_FAMILIES[rid](tier)
         if quick:
             famo = famo[:: max(1, len(famo) // 330)]
+        famo = famo + (O_ALWAYS[rid]() if rid in O_ALWAYS else [])
         mods_in = [(m, False) for m in famo]
         mods_in += [(m, False) for m in (o_rand_module(det) for _ in range(n_rand)) if o_wellformed(m)]
         mods_in += [(m, True) for m in (o_rand_module(rnd) for _ in range(n_rand)) if o_wellformed(m)]
